@@ -188,6 +188,7 @@ func runC13(cfg *vh.Config) error {
 	for i := 0; i < n; i++ {
 		gcfg := j5sgen.DefaultConfig()
 		gcfg.MaxFiles, gcfg.MaxPackages = 2, 2
+		gcfg.Entities = false // the edit addresses index the declared root elements (entities are C02's)
 		switch i % 4 {
 		case 0:
 			gcfg.Imports, gcfg.Services, gcfg.Topics, gcfg.PFiles, gcfg.MaxFiles = false, false, false, false, 1
